@@ -393,12 +393,9 @@ fn check_cls(spec: &ClsSpec, stats: &Stats, fmts: &mut [bool; 2]) -> CaseResult 
     if distinct.len() != ids.len() {
         return Err(fail("classdef-mapping", "two distinct classes share a class id".into()));
     }
-    for a in &ids {
-        for b in &ids {
-            if a.0 > b.0 && a.1 > b.1 {
-                return Err(fail("classdef-mapping", format!("a class of {} glyphs got id {}, a smaller class of {} glyphs got the lower id {} (documented: larger classes first)", a.0, a.1, b.0, b.1)));
-            }
-        }
+    // id order by class size is documented builder behaviour but not part of the property: reported only
+    if ids.iter().any(|a| ids.iter().any(|b| a.0 > b.0 && a.1 > b.1)) {
+        stats.class("classdef-ids-not-by-decreasing-size(reported)");
     }
     stats.class(if spec.use0 { "classdef-builder:class0" } else { "classdef-builder:no-class0" });
     check_classdef(if spec.use0 { "ClassDefBuilder(class 0 used)" } else { "ClassDefBuilder" }, &cd, &want, stats, fmts)
@@ -1512,8 +1509,6 @@ fn check_mark_lookup(li: usize, c: &GposCase, pal: &Pal, bs: &[MBModel], subs: &
     Ok(())
 }
 
-static EXCLUDED: std::sync::atomic::AtomicU64 = std::sync::atomic::AtomicU64::new(0);
-
 fn test_gpos(c: &GposCase, stats: &Stats) -> CaseResult {
     let mut intern = Interner::new();
     let pal = Pal::new(c, &mut intern);
@@ -1555,14 +1550,7 @@ fn test_gpos(c: &GposCase, stats: &Stats) -> CaseResult {
                 models.push(LModel::Pair(ms));
             }
             LKind::Mark(mbs) => {
-                let mut ms: Vec<MBModel> = mbs.iter().map(|b| mb_model(b, &pal)).collect();
-                if c.tier > 0 {
-                    // known finding: a MarkToBase subtable without marks panics the splitter (mark2base.rs chunks_exact(0))
-                    // whenever the GPOS overflows; such builders are left out of cases that can overflow
-                    let before = ms.len();
-                    ms.retain(|m| !m.marks.is_empty());
-                    EXCLUDED.fetch_add((before - ms.len()) as u64, std::sync::atomic::Ordering::Relaxed);
-                }
+                let ms: Vec<MBModel> = mbs.iter().map(|b| mb_model(b, &pal)).collect();
                 let mut builders = Vec::new();
                 for m in &ms {
                     let mut b = MarkToBaseBuilder::default();
@@ -1826,6 +1814,29 @@ fn gpos_strategy(t: u8, budget: u32) -> BoxedStrategy<GposCase> {
         .boxed()
 }
 
+/// regression (fixed finding): an empty MarkToBaseBuilder lookup next to a PairPos lookup that needs splitting used to
+/// panic the splitter (mark2base.rs chunks_exact(0)); i = number of seconds per first glyph beyond 60
+fn regress_case(i: u64) -> GposCase {
+    let none = || PartSpec { explicit: vec![], block: None };
+    let block = PBlock { g1: 1, n1: 500, s1: 2, g2: 1, n2: 60 + i as u16, s2: 1, skew: 0, pal: 0, pal_n: 1, ca: 1, cb: 1, same_rows: false };
+    GposCase {
+        axes: 1,
+        regions: vec![],
+        dsets: vec![],
+        devs: vec![],
+        vals: vec![([None, None, Some(MSpec { v: -50, d: DSpec::None }), None], [None, None, None, None])],
+        anchors: vec![ASpec { x: 0, y: 0, point: None, xd: DSpec::None, yd: DSpec::None }],
+        lookups: vec![
+            LSpec { flags: 0, mark_set: None, kind: LKind::Mark(vec![MB { n_classes: 1, marks: vec![], mblock: None, bases: vec![], bblock: None }]) },
+            LSpec { flags: 0, mark_set: None, kind: LKind::Pair(vec![PB { explicit_first: false, pairs: vec![], blocks: vec![block], c1: none(), c2: none(), crules: vec![], cgrid: None }]) },
+        ],
+        strangers: vec![],
+        qsel: 0,
+        budget: 400_000,
+        tier: 0,
+    }
+}
+
 fn main() {
     let ctx = Ctx::from_args("C16");
     ctx.set_rule(
@@ -1834,11 +1845,11 @@ fn main() {
          Non-trivial = the compiled GPOS has a lookup promoted to extension or a lookup with more subtables than the builders produced (split); distinct by hash of the case.",
     );
     ctx.assume("read-fonts parses the tables the walker navigates (coverage/classdef get, record arrays, offsets); precedence model: per PairPosBuilder glyph-pair rules first (first inserted wins), then its class subtable decides for every first glyph it covers; builders of a lookup in order; mark/base: first builder holding the mark whose base has an anchor for the mark's class; an all-zero adjustment and 'no subtable applied' are the same observable; a case whose dump_table fails (packing) is counted, not judged");
-    ctx.prop_stage("sets", Isolation::Threads, ctx.n(5_000, 100_000), sets_strategy, test_sets);
+    ctx.index_stage("regress-empty-markbase", Isolation::Threads, 3, regress_case, test_gpos);
+    ctx.prop_stage("sets", Isolation::Threads, ctx.n(8_000, 100_000), sets_strategy, test_sets);
     let budget: u32 = if ctx.quick() { 400_000 } else { 1_500_000 };
-    ctx.prop_stage("gpos-small", Isolation::Threads, ctx.n(1_200, 24_000), move || gpos_strategy(0, budget), test_gpos);
-    ctx.prop_stage("gpos-medium", Isolation::Threads, ctx.n(160, 2_400), move || gpos_strategy(1, budget), test_gpos);
-    ctx.prop_stage("gpos-large", Isolation::Threads, ctx.n(40, 480), move || gpos_strategy(2, budget), test_gpos);
-    ctx.excluded_known(EXCLUDED.load(std::sync::atomic::Ordering::Relaxed));
+    ctx.prop_stage("gpos-small", Isolation::Threads, ctx.n(2_000, 24_000), move || gpos_strategy(0, budget), test_gpos);
+    ctx.prop_stage("gpos-medium", Isolation::Threads, ctx.n(260, 2_400), move || gpos_strategy(1, budget), test_gpos);
+    ctx.prop_stage("gpos-large", Isolation::Threads, ctx.n(64, 480), move || gpos_strategy(2, budget), test_gpos);
     ctx.finish();
 }
